@@ -22,7 +22,7 @@ RULE = ('Real UDPCL agents over an in-memory datagram network: one to three send
 SHRINK_KEYS = ('ops',)
 SHRINK_KINDS = ('list',)
 ASSUMPTIONS = [
-    'mtu >= 24; without an MTU bundles stay below the UDP limit',
+    'mtu >= 24 (below that no segment fits at all)',
     'bundles are real RFC 9171 encodings (an unsegmented datagram is recognised by its CBOR array head)',
     'the transmit pacing runs on the virtual clock (time.monotonic_ns inside udpcl.agent is rebound)',
 ]
